@@ -404,6 +404,11 @@ class Check:
                 self.known_hit[k["what"]] = ent + 1
                 return
         n = len(self.violations) + 1
+        if n == 1:
+            self._all = open(os.path.join(self.workdir, "all-violations.ndjson"), "w")
+        if n <= 200000:
+            self._all.write(json.dumps({"construct": construct, "what": what, "observed": observed,
+                                        "expected": expected}, default=str, ensure_ascii=False)[:3000] + "\n")
         if n <= 25:
             path = os.path.join(self.workdir, f"violation-{n}.json")
             json.dump({"property": self.prop, "construct": construct, "what": what, "case": case,
